@@ -130,6 +130,10 @@ CompletedClean(s) == \A a \in AppsOf(s) :
       s.apps[a].state \in {"Completed"} =>
          /\ {k \in DOMAIN s.apps[a].allocs : ~s.apps[a].allocs[k].ph} = {}
          /\ {k \in DOMAIN s.apps[a].asks : ~s.apps[a].asks[k].allocated} = {}
+\* an application with a live real allocation is not Completing either (it would be Completed by the timer with the allocation
+\* still bound)
+CompletingHoldsNoReal(s) == \A a \in AppsOf(s) :
+      s.apps[a].state = "Completing" => {k \in DOMAIN s.apps[a].allocs : ~s.apps[a].allocs[k].ph} = {}
 InFlightRealOf(s, a) == {x \in InFlightReal(s) : x[1] = a}
 \* an application with neither outstanding asks nor allocations of any kind has left Accepted/Running
 IdleLeavesRunning(s) == \A a \in AppsOf(s) :
